@@ -8,6 +8,7 @@
    ones are not selected).
 
      dsubst m v x   the data x with every selected child replaced by v
+     drekey m k x   the data x with the KEY of every selected mapping entry replaced by k (entries keep place and value)
      dprune m x     the data x without the selected children (order of the rest kept)
      dembeds x x'   x' is x with children appended to some containers, nothing else changed
 
@@ -49,6 +50,19 @@ Fixpoint dsubst (m : mask) (v : data) (x : data) {struct x} : data :=
   | DSet _ => x
   end.
 
+(* replace the KEYS of the selected mapping entries by k (an alias of the changed node used as a key) *)
+Fixpoint drekey (m : mask) (k : pyval) (x : data) {struct x} : data :=
+  match x with
+  | DLeaf _ => x
+  | DMap kvs =>
+      DMap (zipflat (fun (sm : bool * mask) (kv : pyval * data) =>
+                       [(if fst sm then k else fst kv, drekey (snd sm) k (snd kv))])
+                    (fun kv => [kv]) (msel m) kvs)
+  | DSeq els =>
+      DSeq (zipflat (fun (sm : bool * mask) (e : data) => [drekey (snd sm) k e]) (fun e => [e]) (msel m) els)
+  | DSet _ => x
+  end.
+
 (* remove the selected children *)
 Fixpoint dprune (m : mask) (x : data) {struct x} : data :=
   match x with
@@ -82,6 +96,15 @@ Fixpoint mask_subst (P : N -> cref -> node -> bool) (d : node) : mask :=
   | NSet _ _ => MNode []
   end.
 
+(* the mapping entries whose KEY is designated *)
+Fixpoint mask_keys (K : node -> bool) (d : node) : mask :=
+  match d with
+  | NLeaf _ _ => MNode []
+  | NMap _ kvs => MNode (map (fun kv => (K (fst kv), mask_keys K (snd kv))) kvs)
+  | NSeq _ els => MNode (map (fun x => (false, mask_keys K x)) els)
+  | NSet _ _ => MNode []
+  end.
+
 Fixpoint mask_prune (T : N -> nat -> bool) (d : node) : mask :=
   match d with
   | NLeaf _ _ => MNode []
@@ -93,11 +116,13 @@ Fixpoint mask_prune (T : N -> nat -> bool) (d : node) : mask :=
 (* ---- the plain-data edit operations and their runs ---- *)
 Inductive pop :=
   | PReplace (m : mask) (v : data)     (* set: the selected locations now hold v *)
+  | PRekey (m : mask) (k : pyval)      (* set: the selected mapping entries are now filed under the key k *)
   | PRemove (m : mask)                 (* delete: the selected children are gone *)
   | PExtend.                           (* create: containers gained children (dembeds); followed by a PReplace *)
 
 Inductive pstep : pop -> data -> data -> Prop :=
   | ps_replace : forall m v x, pstep (PReplace m v) x (dsubst m v x)
+  | ps_rekey : forall m k x, pstep (PRekey m k) x (drekey m k x)
   | ps_remove : forall m x, pstep (PRemove m) x (dprune m x)
   | ps_extend : forall x x', dembeds x x' -> pstep PExtend x x'.
 
@@ -138,11 +163,14 @@ Definition act_target (a : action) (st : state) : option (N * pyval * node) :=
 
 (* GUARD of one change = the hypotheses of C03_set_exact: a plain change (not a
    [name()] key rename) that addresses a node of the document which is not
-   also used as a mapping key / set member (known finding F24) *)
+   also a set member; the mappings of the document have pairwise different keys
+   (true of every loaded document).  A matched node that is also used as a
+   mapping KEY is inside the guard since fix 7612ed9 (formerly excluded: known
+   finding F24). *)
 Definition act_ok (a : action) (st : state) : bool :=
-  negb (a_name a) &&
+  negb (a_name a) && mkeys_distinct (fst st) &&
   match act_target a st with
-  | Some (o, _, c) => keys_sets_clean o (node_oid c) (fst st)
+  | Some (o, _, c) => alias_clean o (node_oid c) (fst st)
   | None => false
   end.
 
@@ -167,6 +195,8 @@ Fixpoint abs_actions (value : pyval) (vo : N) (acts : list action) (st : state) 
           match make_new_node lit fl (Some (node_info c)) value (a_fmt a) (snd st) vo with
           | ROk new =>
               PReplace (mask_subst (designated o rf (node_oid c)) (fst st)) (erase new) ::
+              PRekey (mask_keys (kdesignated (node_oid c)) (subst (designated o rf (node_oid c)) new (fst st)))
+                     (match new with NLeaf _ v => v | _ => PNone end) ::
               match apply_action lit fl value vo a st with
               | ROk st' => abs_actions value vo r st'
               | RErr _ => []
@@ -178,7 +208,7 @@ Fixpoint abs_actions (value : pyval) (vo : N) (acts : list action) (st : state) 
   end.
 
 Definition pairs_of (cs : list coord) : list (option N * pyval) :=
-  map (fun p => (pc_parent p, pc_ref p)) (del_order cs).
+  map (fun p => (pc_parent p, pc_ref p)) (leaf_coords cs).
 
 Definition create_walk (segs : list seg) (value : pyval) (vo : option N) (d : node) :=
   let s := sv_start vo (init_state d) in
@@ -187,14 +217,15 @@ Definition create_walk (segs : list seg) (value : pyval) (vo : option N) (d : no
 (* GUARD of one operation: the invariants (ruamel containers carry the anchor
    attribute; every container object is held once) hold of the document the
    operation starts from, and the operation stays inside the proved fragment
-   (C03_set_exact's hypotheses for every change; C04's guard for a delete) *)
+   (C03_set_exact's hypotheses for every change; the coordinates of a delete each
+   locate a node - no condition on their number or order since fix 17f9ea8) *)
 Definition op_ok (op : hop) (d : node) : bool :=
   wf_attr d &&
   match op with
   | HSet cs v f vo =>
       let s := sv_start vo (init_state d) in
       acts_ok v (fst s) (flat_map (set_actions f) cs) (snd s)
-  | HDelete cs => wf_docb d && no_dup_no_disorder d (pairs_of cs)
+  | HDelete cs => wf_docb d && del_all_located d (pairs_of cs)
   | HCreate segs v f vo =>
       wf_docb d &&
       match create_walk segs v vo d with
